@@ -264,6 +264,17 @@ func addVal(valA, valB Quantity) Quantity {
 }
 
 func subVal(valA, valB Quantity) Quantity {
+	// the minimum value cannot be negated: -MinInt64 wraps back to MinInt64
+	if valB == math.MinInt64 {
+		if valA < 0 {
+			// exact result fits: valA + 2^63 is between 0 and MaxInt64
+			return valA - valB
+		}
+		log.Log(log.Resources).Warn("Resource calculation wrapped: returned maximum value possible",
+			zap.Int64("valueA", int64(valA)),
+			zap.Int64("valueB", int64(valB)))
+		return math.MaxInt64
+	}
 	return addVal(valA, -valB)
 }
 
